@@ -154,10 +154,19 @@ def eval_one(name, tier='quick'):
 def cmd_eval(names, tier='quick'):
     from concurrent.futures import ThreadPoolExecutor
     if not names:
-        names = sorted(n for n in os.listdir(SEEDED) if os.path.isdir(os.path.join(SEEDED, n)))
+        names = sorted(n for n in os.listdir(SEEDED)
+                       if os.path.isfile(os.path.join(SEEDED, n, 'meta.json')))
+        partial = False
+    else:
+        partial = True
     with ThreadPoolExecutor(max_workers=12) as ex:
         res = list(ex.map(lambda n: eval_one(n, tier), names))
     table = {}
+    if partial:
+        try:
+            table = json.load(open(os.path.join(SEEDED, 'RESULTS.json')))
+        except (OSError, ValueError):
+            table = {}
     for name, pid, verdict, info in res:
         print('%-8s %-14s %s' % (name, verdict, info))
         table[name] = {'property': pid, 'verdict': verdict, 'rules_or_note': info}
